@@ -23,7 +23,7 @@ pub fn prop() -> Prop {
 
 pub type Table = Vec<(Vec<(f64, f64, f64)>, f64)>;
 pub fn load_table() -> Table {
-    serde_json::from_slice(&std::fs::read(format!("{}/physics/data/simulation/drift_table/drift_1T_70Ar_30CO2.json", REPO)).unwrap()).unwrap()
+    serde_json::from_slice(&std::fs::read(format!("{}/physics/data/simulation/drift_table/drift_1T_70Ar_30CO2.json", repo_root())).unwrap()).unwrap()
 }
 #[derive(Debug, PartialEq, Clone, Copy)]
 pub enum Look {
